@@ -24,6 +24,11 @@ from scipy import stats
 from vizier import pyvizier
 
 
+def _Scalar(x) -> float:
+  """float() of a one-element array (NumPy 2 refuses arrays with ndim > 0)."""
+  return float(np.asarray(x).item())
+
+
 def DefaultBBOBProblemStatement(
     dimension: int,
     *,
@@ -207,7 +212,7 @@ def Rastrigin(arr: np.ndarray, seed: int = 0) -> float:
   z = np.matmul(_R(dim, seed, b"Q"), z)
   z = np.matmul(LambdaAlpha(10.0, dim), z)
   z = np.matmul(_R(dim, seed, b"R"), z)
-  return float(10 * (dim - np.sum(np.cos(2 * math.pi * z))) +
+  return _Scalar(10 * (dim - np.sum(np.cos(2 * math.pi * z))) +
                np.sum(z * z, axis=0))
 
 
@@ -235,7 +240,7 @@ def LinearSlope(arr: np.ndarray, seed: int = 0) -> float:
   for i in range(dim):
     s = 10**(i / float(dim - 1) if dim > 1 else 1)
     z_opt = 5 * np.sum(np.abs(r[i, :]))
-    result += float(s * (z_opt - z[i]))
+    result += _Scalar(s * (z_opt - z[i]))
   return result
 
 
@@ -298,7 +303,7 @@ def Ellipsoidal(arr: np.ndarray, seed: int = 0) -> float:
   s = 0.0
   for i in range(dim):
     exp = 6.0 * i / (dim - 1) if dim > 1 else 6.0
-    s += float(10**exp * z_vec[i] * z_vec[i])
+    s += _Scalar(10**exp * z_vec[i] * z_vec[i])
   return s
 
 
@@ -308,7 +313,7 @@ def Discus(arr: np.ndarray, seed: int = 0) -> float:
   arr.shape = (dim, 1)
   r_x = np.matmul(_R(dim, seed, b"R"), arr)
   z_vec = ArrayMap(r_x, Tosz)
-  return float(10**6 * z_vec[0] * z_vec[0]) + sum(
+  return _Scalar(10**6 * z_vec[0] * z_vec[0]) + sum(
       [z * z for z in z_vec[1:].flat])
 
 
@@ -319,7 +324,7 @@ def BentCigar(arr: np.ndarray, seed: int = 0) -> float:
   z_vec = np.matmul(_R(dim, seed, b"R"), arr)
   z_vec = Tasy(z_vec, 0.5)
   z_vec = np.matmul(_R(dim, seed, b"R"), z_vec)
-  return float(z_vec[0]**2) + 10**6 * np.sum(z_vec[1:]**2)
+  return _Scalar(z_vec[0]**2) + 10**6 * np.sum(z_vec[1:]**2)
 
 
 def SharpRidge(arr: np.ndarray, seed: int = 0) -> float:
@@ -357,7 +362,7 @@ def Weierstrass(arr: np.ndarray, seed: int = 0) -> float:
   s = 0.0
   for i in range(dim):
     for k in range(k_order):
-      s += 0.5**k * math.cos(2 * math.pi * (3**k) * (z[i] + 0.5))
+      s += 0.5**k * math.cos(2 * math.pi * (3**k) * (_Scalar(z[i]) + 0.5))
 
   return float(10 * (s / dim - f0)**3) + 10 * Fpen(arr) / dim
 
@@ -375,7 +380,7 @@ def SchaffersF7(arr: np.ndarray, seed: int = 0) -> float:
 
   s_arr = np.zeros(dim - 1)
   for i in range(dim - 1):
-    s_arr[i] = float((z[i]**2 + z[i + 1]**2)**0.5)
+    s_arr[i] = _Scalar((z[i]**2 + z[i + 1]**2)**0.5)
   s = 0.0
   for i in range(dim - 1):
     s += s_arr[i]**0.5 + (s_arr[i]**0.5) * math.sin(50 * s_arr[i]**0.2)**2
@@ -396,7 +401,7 @@ def SchaffersF7IllConditioned(arr: np.ndarray, seed: int = 0) -> float:
 
   s_arr = np.zeros(dim - 1)
   for i in range(dim - 1):
-    s_arr[i] = float((z[i]**2 + z[i + 1]**2)**0.5)
+    s_arr[i] = _Scalar((z[i]**2 + z[i + 1]**2)**0.5)
   s = 0.0
   for i in range(dim - 1):
     s += s_arr[i]**0.5 + (s_arr[i]**0.5) * math.sin(50 * s_arr[i]**0.2)**2
@@ -512,7 +517,7 @@ def Gallagher101Me(arr: np.ndarray, seed: int = 0) -> float:
     w = 10 if i == 0 else (1.1 + 8.0 * (i - 1.0) / (num_optima - 2.0))
     diff = np.matmul(rotation, arr - optima_list[i])
     e = np.matmul(diff.transpose(), np.matmul(c_list[i], diff))
-    max_value = max(max_value, w * math.exp(-float(e) / (2.0 * dim)))
+    max_value = max(max_value, w * math.exp(-_Scalar(e) / (2.0 * dim)))
 
   return Tosz(10.0 - max_value)**2 + Fpen(arr)
 
@@ -545,7 +550,7 @@ def Gallagher21Me(arr: np.ndarray, seed: int = 0) -> float:
     w = 10 if i == 0 else (1.1 + 8.0 * (i - 1.0) / (num_optima - 2.0))
     diff = np.matmul(rotation, arr - optima_list[i])
     e = np.matmul(diff.transpose(), np.matmul(c_list[i], diff))
-    max_value = max(max_value, w * math.exp(-float(e) / (2.0 * dim)))
+    max_value = max(max_value, w * math.exp(-_Scalar(e) / (2.0 * dim)))
 
   return Tosz(10.0 - max_value)**2 + Fpen(arr)
 
@@ -558,7 +563,7 @@ def NegativeSphere(arr: np.ndarray, seed: int = 0) -> float:
   dim = len(arr)
   arr.shape = (dim, 1)
   z = np.matmul(_R(dim, seed, b"R"), arr)
-  return float(100 + np.sum(z * z) - 2 * (z[0]**2))
+  return _Scalar(100 + np.sum(z * z) - 2 * (z[0]**2))
 
 
 def NegativeMinDifference(arr: np.ndarray, seed: int = 0) -> float:
@@ -569,7 +574,7 @@ def NegativeMinDifference(arr: np.ndarray, seed: int = 0) -> float:
   min_difference = 10000
   for i in range(len(z) - 1):
     min_difference = min(min_difference, z[i + 1] - z[i])
-  return 10.0 - float(min_difference) + 1e-8 * float(sum(arr))
+  return 10.0 - _Scalar(min_difference) + 1e-8 * _Scalar(sum(arr))
 
 
 def FonsecaFleming(arr: np.ndarray, seed: int = 0) -> float:
